@@ -60,7 +60,6 @@ Example c25_nonvacuous :
   lc_st (lcalls (run c25_demo) 0) = Ended EReplaced /\ sc_st (scalls (run c25_demo) 0) = Ended EReplaced /\
   (forall c, alive (lc_st (lcalls (run c25_demo) c)) = false /\ alive (sc_st (scalls (run c25_demo) c)) = false).
 Proof.
-  repeat split; try reflexivity.
-  - destruct c as [|[|c]]; reflexivity.
-  - destruct c as [|[|c]]; reflexivity.
+  split; [vm_compute; reflexivity|]. split; [vm_compute; reflexivity|].
+  intros c. destruct c as [|[|c]]; vm_compute; auto.
 Qed.
